@@ -7,6 +7,7 @@
 (*     "MM" MetaMessage('set_tempo'):          x = tempo                   *)
 (*     "SS" MetaMessage('sequencer_specific'): x stands for data (x,)      *)
 (*     "UM" UnknownMetaMessage(0x60):          x stands for data (x,)      *)
+(*     "SX" Message('sysex'):                  x stands for data (x,)      *)
 (*     "RT" Message('clock'), a real-time message: no attribute but time   *)
 (*          (x is a constant placeholder; every x override is rejected)    *)
 (* x ranges over {1, 2}; overrides also try the out-of-range value Bad and  *)
@@ -84,6 +85,12 @@ SetAttr == \E i \in DOMAIN heap : \E a \in {"x", "time"} :
                         ELSE heap
              /\ Record(Step("setattr", i, 0, a, v, ok, 0))
 
+\* a frozen message takes no new attribute either
+SetNew == \E i \in DOMAIN heap :
+            /\ heap[i].frozen
+            /\ heap' = heap
+            /\ Record(Step("setnew", i, 0, "", 0, FALSE, 0))
+
 \* attributes cannot be deleted, frozen or not
 DelAttr == \E i \in DOMAIN heap : \E a \in {"x", "time"} :
              /\ heap' = heap
@@ -108,7 +115,7 @@ NoneMaps == /\ heap' = heap
             /\ \E op \in {"freeze_none", "thaw_none"} : Record(Step(op, 0, 0, "", 0, TRUE, 0))
 
 Next == /\ Len(hist) < MaxOps
-        /\ (New \/ Copy \/ Freeze \/ Thaw \/ SetAttr \/ DelAttr \/ HashEq \/ HashVariant \/ NoneMaps)
+        /\ (New \/ Copy \/ Freeze \/ Thaw \/ SetAttr \/ SetNew \/ DelAttr \/ HashEq \/ HashVariant \/ NoneMaps)
 Spec == Init /\ [][Next]_vars
 
 \* ---- properties ----
@@ -125,10 +132,10 @@ FrozenNeverChanges ==
   [][\A k \in DOMAIN heap : heap[k].frozen => heap'[k] = heap[k]]_vars
 AllValidOrUnknown == \A k \in DOMAIN heap : heap[k].cls = "RT" \/ ValidX(heap[k].cls, heap[k].x)
 
-ClsCode(c) == CASE c = "M" -> 1 [] c = "MM" -> 2 [] c = "SS" -> 3 [] c = "UM" -> 4 [] c = "RT" -> 5
+ClsCode(c) == CASE c = "M" -> 1 [] c = "MM" -> 2 [] c = "SS" -> 3 [] c = "UM" -> 4 [] c = "RT" -> 5 [] c = "SX" -> 6
 OpCode(o) == CASE o = "new" -> 1 [] o = "copy" -> 2 [] o = "freeze" -> 3 [] o = "thaw" -> 4
                [] o = "setattr" -> 5 [] o = "hash" -> 6 [] o = "freeze_none" -> 7 [] o = "thaw_none" -> 8 [] o = "hashf" -> 9
-               [] o = "delattr" -> 10
+               [] o = "delattr" -> 10 [] o = "setnew" -> 11
 HeapFlat(h) == <<Len(h)>> \o [k \in 1..(4 * Len(h)) |->
                   LET o == h[((k - 1) \div 4) + 1] IN
                   CASE (k - 1) % 4 = 0 -> ClsCode(o.cls) [] (k - 1) % 4 = 1 -> (IF o.frozen THEN 1 ELSE 0)
